@@ -134,3 +134,52 @@
 (assert (not (= (bvand x (bvshl #x00000001 k)) (bvmul (bvshl #x00000001 k) (bvurem (bvudiv x (bvshl #x00000001 k)) #x00000002)))))
 (check-sat)
 ;;@ end
+
+; ---- SuccessProbability under contract (C13): successProb gets its definition, the body is proved against it ----
+; utf8seg(A,p,q): every element of A[p..q) is valid UTF-8 (witness form, so that a solver can establish it from a quantified precondition)
+(declare-fun utf8seg ((Array Int Str) Int Int) Bool)
+(declare-fun utf8segw ((Array Int Str) Int Int) Int)
+;;@ axiom UTF8SEG-intro optin trigger=utf8seg :: definition of utf8seg (introduction through a witness: if the witness element is valid, all are)
+(assert (forall ((A (Array Int Str)) (p Int) (q Int)) (! (=> (=> (and (<= 0 (utf8segw A p q)) (< (utf8segw A p q) (- q p))) (utf8ok (select A (idx p (utf8segw A p q))))) (utf8seg A p q)) :pattern ((utf8seg A p q)))))
+(declare-fun joinw ((Array Int Str) Int Int Str) Int)
+;;@ axiom INCS-joinseg-elim optin trigger=joinseg,incs :: T-STR (valid UTF-8): a piece of a concatenation of valid strings is a piece of one of them (joinw names which)
+(assert (forall ((A (Array Int Str)) (p Int) (q Int) (c Str)) (! (=> (and (utf8seg A p q) (incs (joinseg A p q) c))
+  (and (<= 0 (joinw A p q c)) (< (joinw A p q c) (- q p)) (incs (select A (idx p (joinw A p q c))) c))) :pattern ((incs (joinseg A p q) c)))))
+;;@ axiom INCS-joinseg-intro optin trigger=joinseg,incs :: T-STR (valid UTF-8): a piece of an element is a piece of the concatenation of valid strings
+(assert (forall ((A (Array Int Str)) (p Int) (q Int) (k Int) (c Str)) (! (=> (and (utf8seg A p q) (<= 0 k) (< k (- q p)) (incs (select A (idx p k)) c))
+  (incs (joinseg A p q) c)) :pattern ((joinseg A p q) (incs (select A (idx p k)) c)))))
+;;@ axiom UTF8-joinseg optin trigger=joinseg,utf8ok :: T-STR: a concatenation of valid UTF-8 strings is valid UTF-8
+(assert (forall ((A (Array Int Str)) (p Int) (q Int)) (! (=> (utf8seg A p q) (utf8ok (joinseg A p q))) :pattern ((joinseg A p q)))))
+;;@ axiom UTF8-cat optin trigger=cat,utf8ok :: T-STR: a concatenation of two valid UTF-8 strings is valid UTF-8
+(assert (forall ((a Str) (b Str)) (! (=> (and (utf8ok a) (utf8ok b)) (utf8ok (cat a b))) :pattern ((cat a b)))))
+; alphaSize is a function of the membership predicate inA alone (it is the cardinality of that set): extensionality, through a witness
+(declare-fun alphaDiffW (CharRecipe (Array Int Str) Int Int CharRecipe (Array Int Str) Int Int) Str)
+;;@ axiom ALPHASIZE-ext optin trigger=alphaSize :: T-CARD / DEFINITION of alphaSize: two recipes with the same alphabet membership have the same alphabet size
+(assert (forall ((r1 CharRecipe) (RS1 (Array Int Str)) (o1 Int) (n1 Int) (r2 CharRecipe) (RS2 (Array Int Str)) (o2 Int) (n2 Int))
+  (! (=> (= (inA r1 RS1 o1 n1 (alphaDiffW r1 RS1 o1 n1 r2 RS2 o2 n2)) (inA r2 RS2 o2 n2 (alphaDiffW r1 RS1 o1 n1 r2 RS2 o2 n2)))
+         (= (alphaSize r1 RS1 o1 n1) (alphaSize r2 RS2 o2 n2))) :pattern ((alphaSize r1 RS1 o1 n1) (alphaSize r2 RS2 o2 n2)))))
+;;@ axiom BOR-bits optin trigger=bor32 :: A-BV (lemma BOR-bits): each of the five class bits of x | y is set iff it is set in x or in y
+(assert (forall ((x Int) (y Int)) (! (=> (and (<= 0 x) (<= x 4294967295) (<= 0 y) (<= y 4294967295))
+  (and (<= 0 (bor32 x y)) (<= (bor32 x y) 4294967295)
+       (= (bitset (bor32 x y) 1) (or (bitset x 1) (bitset y 1))) (= (bitset (bor32 x y) 2) (or (bitset x 2) (bitset y 2)))
+       (= (bitset (bor32 x y) 4) (or (bitset x 4) (bitset y 4))) (= (bitset (bor32 x y) 8) (or (bitset x 8) (bitset y 8)))
+       (= (bitset (bor32 x y) 16) (or (bitset x 16) (bitset y 16))))) :pattern ((bor32 x y)))))
+;;@ lemma BOR-bits props=C13,C17 :: bit-vector fact behind axiom BOR-bits: bit k of x | y is bit k of x or bit k of y, on 32-bit values, k < 5
+(set-logic QF_BV)
+(declare-const x (_ BitVec 32))
+(declare-const y (_ BitVec 32))
+(declare-const k (_ BitVec 32))
+(assert (bvult k #x00000005))
+(assert (not (= (= (bvurem (bvudiv (bvor x y) (bvshl #x00000001 k)) #x00000002) #x00000001)
+                (or (= (bvurem (bvudiv x (bvshl #x00000001 k)) #x00000002) #x00000001) (= (bvurem (bvudiv y (bvshl #x00000001 k)) #x00000002) #x00000001)))))
+(check-sat)
+;;@ end
+;;@ axiom EXP2-mono optin trigger=exp2 :: A-REAL: 2^x is non-decreasing and 2^0 = 1
+(assert (and (= (exp2 0.0) 1.0) (forall ((a Real) (b Real)) (! (=> (<= a b) (<= (exp2 a) (exp2 b))) :pattern ((exp2 a) (exp2 b))))))
+;;@ axiom ENTROPYREQ-le optin trigger=entropyReq,alphaSize :: T-CARD: the strings that meet the requirements are among the alphaSize^Length candidates, and log2 is non-decreasing
+(assert (forall ((r CharRecipe) (RS (Array Int Str)) (off Int) (n Int)) (! (<= (entropyReq r RS off n)
+  (* (to_real (CharRecipe_Length r)) (log2 (to_real (alphaSize r RS off n))))) :pattern ((entropyReq r RS off n)))))
+;;@ axiom SUCCESSPROB-def optin trigger=successProb :: DEFINITION of successProb (statement of C13): the fraction count/alphaSize^Length of candidates that meet the requirements, written 2^(log2 count - Length*log2 alphaSize); every candidate meets them when nothing is required
+(assert (forall ((r CharRecipe) (RS (Array Int Str)) (off Int) (n Int)) (! (= (successProb r RS off n)
+  (exp2 (- (ite (noReq r RS off n) (* (to_real (CharRecipe_Length r)) (log2 (to_real (alphaSize r RS off n)))) (entropyReq r RS off n))
+           (* (to_real (CharRecipe_Length r)) (log2 (to_real (alphaSize r RS off n))))))) :pattern ((successProb r RS off n)))))
